@@ -142,6 +142,7 @@ package boltz
 //@   nosafety
 //@   modifies *
 //@   ensures[read-only] dbSame()
+//@   ensures[a-usable-bucket-or-none] result != nil ==> result.Bucket != nil
 //@ funcparam (*fkIndex).CheckIntegrity.errorSink(err, fixed)
 //@   requires[fixed-only-after-a-repair-in-fix-mode] fixed ==> ciFix && ciDirty
 //@   modifies *
